@@ -187,3 +187,61 @@ func VH_C14_openfill() {
 	vAssert("C14.openfill.interior_painted", inside == 255)
 	vAssert("C14.openfill.exterior_untouched", outside == 0)
 }
+
+// VH_C14_openfill_multi: several subpaths of which a non-final one is open: each is implicitly
+// closed to its *own* start before the next one begins.  Concrete shapes, observed on the image.
+func VH_C14_openfill_multi() {
+	variant := vChoose(0, 2)
+	r := New(24, 12, canvas.DPMM(1), canvas.LinearColorSpace{})
+	p := &canvas.Path{}
+	// first subpath: triangle (1,1) (9,1) (9,9), open in variants 0 and 1
+	p.MoveTo(1, 1)
+	p.LineTo(9, 1)
+	p.LineTo(9, 9)
+	if variant == 2 {
+		p.Close()
+	}
+	// second subpath: square (13,2)-(21,10); open in variant 1
+	p.MoveTo(13, 2)
+	p.LineTo(21, 2)
+	p.LineTo(21, 10)
+	p.LineTo(13, 10)
+	if variant != 1 {
+		p.Close()
+	}
+	style := canvas.DefaultStyle
+	style.Fill = canvas.Paint{Color: canvas.Black}
+	r.RenderPath(p, style, canvas.Identity)
+	img := r.Image.(*image.RGBA)
+	at := func(x, y int) uint8 { return img.RGBAAt(x, 12-1-y).A }
+	vAssert("C14.openfill_multi.first_interior_painted", at(7, 3) == 255)
+	vAssert("C14.openfill_multi.first_exterior_untouched", at(3, 7) == 0)
+	vAssert("C14.openfill_multi.second_interior_painted", at(17, 6) == 255 && at(14, 8) == 255)
+	vAssert("C14.openfill_multi.between_untouched", at(11, 5) == 0 && at(11, 1) == 0 && at(11, 9) == 0)
+}
+
+// VH_C14_stroke_overlap: strokes are painted as the union of the stroke regions (non-zero),
+// whatever the style's fill rule: where the strokes of two subpaths cross, the pixel is painted.
+func VH_C14_stroke_overlap() {
+	rule := canvas.FillRule(vChoose(0, 1))
+	withFill := vChoose(0, 1) == 1
+	r := New(12, 12, canvas.DPMM(1), canvas.LinearColorSpace{})
+	p := &canvas.Path{}
+	p.MoveTo(1, 6)
+	p.LineTo(11, 6)
+	p.MoveTo(6, 1)
+	p.LineTo(6, 11)
+	style := canvas.DefaultStyle
+	style.Stroke = canvas.Paint{Color: canvas.Black}
+	style.StrokeWidth = 2
+	style.FillRule = rule
+	if withFill {
+		style.Fill = canvas.Paint{Color: canvas.Black}
+	}
+	r.RenderPath(p, style, canvas.Identity)
+	img := r.Image.(*image.RGBA)
+	at := func(x, y int) uint8 { return img.RGBAAt(x, 12-1-y).A }
+	vAssert("C14.stroke.arms_painted", at(3, 6) == 255 && at(6, 3) == 255 && at(9, 5) == 255 && at(5, 9) == 255)
+	vAssert("C14.stroke.crossing_painted", at(5, 5) == 255 && at(6, 6) == 255 && at(5, 6) == 255 && at(6, 5) == 255)
+	vAssert("C14.stroke.outside_untouched", at(2, 2) == 0 && at(9, 9) == 0)
+}
